@@ -29,7 +29,12 @@ APIS = [
     ("subtree_reconfigure_forest", {}),
     ("simulated_anneal", {}), ("simulated_anneal", {"target_size": 8, "slice_mode": "basic"}),
     ("simulated_anneal", {"target_size": 8, "slice_mode": "drift"}),
+    ("simulated_anneal", {"target_size": "current", "slice_mode": "drift", "presliced": True}),
+    ("simulated_anneal", {"target_size": "current", "slice_mode": "basic", "presliced": True}),
+    ("simulated_anneal", {"target_size": 8, "slice_mode": "reslice", "presliced": True}),
     ("parallel_temper", {}), ("parallel_temper", {"target_size": 8}),
+    ("parallel_temper", {"target_size": "current", "presliced": True}),
+    ("tree.slice", {"reslice": True, "presliced": True}),
     ("get_subtree", {}),
 ]
 GENS = ["rand_equation", "tree_equation", "randreg_equation", "perverse_equation", "lattice_equation",
@@ -92,7 +97,7 @@ def run(run):
                           tags={v[0], "api:" + call["api"]} | tag_kw)
         else:
             run.sample({"call": call, "environments": [e["hashseed"] for e in envs], "digest": digs[0]})
-    run.cov["rule"] = ("every seeded public API (21 configurations + 8 generators) x 2-3 networks x seeds, each executed in 4 (quick) / 8 "
+    run.cov["rule"] = ("every seeded public API (27 configurations + 8 generators) x 2-3 networks x seeds, each executed in 4 (quick) / 8 "
                        "(thorough) fresh interpreters with different PYTHONHASHSEED, perturbed global RNG state and different call orders; "
                        "distinct by call key (api, kwargs, network, seed); evaluations = observations")
     run.assumptions += ["digest = sha1 of the repr of the returned path / sliced indices / arrays"]
